@@ -147,7 +147,7 @@ fn run_c16(cfg: &Cfg, rep: &mut Report) {
             // reads take a while too: widens the window between a handler's own book-keeping and the data it reads
             env.stub.set_latency("find", "adf-problems", 8);
         }
-        let ccfg = c16::C16Cfg { nmax, delayed: phase == "delayed" };
+        let ccfg = c16::C16Cfg { nmax, delayed: phase == "delayed", mid_every: cfg.get_usize("mid_every", 5) as u64 };
         let n = if phase == "plain" { cfg.cases } else { (cfg.cases / 3).max(2) };
         for i in 0..n {
             if rep.too_many() || !rep.inconclusive.is_empty() {
